@@ -1,3 +1,297 @@
-use crate::{json::J, Ctx};
-pub fn c17(_ctx: &Ctx) {}
-pub fn replay(_c: &J) -> bool { false }
+//! C17: HSL follows the hexcone model, stays in range and round-trips.
+use crate::ev::{self, Distinct, Worst};
+use crate::gen::{hash_px, Rng};
+use crate::json::J;
+use crate::oracle::lrgb_to_hsl;
+use crate::util::*;
+use crate::Ctx;
+use std::sync::atomic::{AtomicU64, Ordering::Relaxed};
+use std::sync::Mutex;
+use yuvxyb::*;
+
+const STRATA: [&str; 8] = ["uniform-cube", "forced-sextant", "grey-and-near-grey", "channel-pinned-0-or-1", "two-channels-tiny", "black-white-corners", "sextant-boundary+-ulps", "bit-pattern-uniform"];
+
+fn nudge(v: f32, k: i64) -> f32 {
+    let b = v.to_bits() as i64 + k;
+    if b < 0 {
+        return 0.0;
+    }
+    f32::from_bits(b as u32).clamp(0.0, 1.0)
+}
+
+fn gen(rng: &mut Rng, kind: u64) -> [f32; 3] {
+    let u = |rng: &mut Rng| rng.unit() as f32;
+    match kind {
+        0 => [u(rng), u(rng), u(rng)],
+        1 => {
+            // force a channel order: pick three values, sort, assign by a permutation
+            let mut v = [u(rng), u(rng), u(rng)];
+            v.sort_by(|a, b| a.partial_cmp(b).unwrap());
+            let perms = [[0usize, 1, 2], [0, 2, 1], [1, 0, 2], [1, 2, 0], [2, 0, 1], [2, 1, 0]];
+            let p = rng.pick(&perms);
+            [v[p[0]], v[p[1]], v[p[2]]]
+        }
+        2 => {
+            let g = rng.unit();
+            let s = 10f64.powf(-3.0 - 6.0 * rng.unit());
+            [g as f32, (g + (rng.unit() - 0.5) * s).clamp(0.0, 1.0) as f32, (g + (rng.unit() - 0.5) * s).clamp(0.0, 1.0) as f32]
+        }
+        3 => {
+            let mut p = [u(rng), u(rng), u(rng)];
+            p[rng.below(3) as usize] = if rng.coin() { 0.0 } else { 1.0 };
+            if rng.below(4) == 0 {
+                p[rng.below(3) as usize] = if rng.coin() { 0.0 } else { 1.0 };
+            }
+            p
+        }
+        4 => {
+            let s1 = 10f64.powf(-30.0 * rng.unit());
+            let s2 = 10f64.powf(-30.0 * rng.unit());
+            let big = if rng.coin() { rng.unit() } else { 10f64.powf(-6.0 * rng.unit()) };
+            let mut p = [big as f32, (rng.unit() * s1) as f32, (rng.unit() * s2) as f32];
+            let k = rng.below(3) as usize;
+            p.swap(0, k);
+            p
+        }
+        5 => {
+            let c = rng.below(8);
+            [(c & 1) as f32, ((c >> 1) & 1) as f32, ((c >> 2) & 1) as f32]
+        }
+        6 => {
+            // two channels equal (a sextant boundary), then one of them moved by a few ulps
+            let hi = u(rng).max(1e-3);
+            let lo = hi * u(rng);
+            let which_equal_max = rng.coin();
+            let mut p = if which_equal_max { [hi, hi, lo] } else { [hi, lo, lo] };
+            // permute
+            let perms = [[0usize, 1, 2], [0, 2, 1], [1, 0, 2], [1, 2, 0], [2, 0, 1], [2, 1, 0]];
+            let pm = rng.pick(&perms);
+            p = [p[pm[0]], p[pm[1]], p[pm[2]]];
+            let c = rng.below(3) as usize;
+            p[c] = nudge(p[c], rng.below(17) as i64 - 8);
+            p
+        }
+        _ => [rng.unit_bits(), rng.unit_bits(), rng.unit_bits()],
+    }
+}
+
+struct Acc {
+    h: Worst<[f32; 3]>,
+    s: Worst<[f32; 3]>,
+    l: Worst<[f32; 3]>,
+    rt: Worst<[f32; 3]>,
+    range_bad: [u64; 4], // H<0|NaN, H>=360, S out, L out
+    first_range_bad: Option<([f32; 3], [f32; 3])>,
+    sext: [u64; 7],
+}
+
+fn check(px: &[[f32; 3]], acc: &mut Acc) -> Result<(), String> {
+    let n = px.len();
+    let (w, hgt) = if n % 3 == 0 { (n / 3, 3) } else { (n, 1) };
+    let hsl = Hsl::from(LinearRgb::new(px.to_vec(), w, hgt).map_err(|e| format!("{e:?}"))?);
+    if hsl.width() != w || hsl.height() != hgt || hsl.data().len() != n {
+        return Err(format!("dims changed: {}x{}", hsl.width(), hsl.height()));
+    }
+    let back = LinearRgb::from(hsl.clone());
+    if back.width() != w || back.height() != hgt || back.data().len() != n {
+        return Err(format!("dims changed on the way back: {}x{}", back.width(), back.height()));
+    }
+    for i in 0..n {
+        let p = px[i];
+        let g = hsl.data()[i];
+        let want = lrgb_to_hsl(px64(p));
+        let mut bad = false;
+        if !(g[0] >= 0.0) {
+            acc.range_bad[0] += 1;
+            bad = true;
+        }
+        if !(g[0] < 360.0) && g[0] >= 0.0 {
+            acc.range_bad[1] += 1;
+            bad = true;
+        }
+        if !(g[1] >= 0.0 && g[1] <= 1.0) {
+            acc.range_bad[2] += 1;
+            bad = true;
+        }
+        if !(g[2] >= 0.0 && g[2] <= 1.0) {
+            acc.range_bad[3] += 1;
+            bad = true;
+        }
+        if bad && acc.first_range_bad.is_none() {
+            acc.first_range_bad = Some((p, g));
+        }
+        acc.l.upd((g[2] as f64 - want[2]).abs(), p);
+        if (0.01..=0.99).contains(&want[2]) {
+            acc.s.upd((g[1] as f64 - want[1]).abs(), p);
+        }
+        let mx = p[0].max(p[1]).max(p[2]);
+        let mn = p[0].min(p[1]).min(p[2]);
+        let c = (mx as f64) - (mn as f64);
+        if c >= 0.01 {
+            let d = (g[0] as f64 - want[0]).abs();
+            let d = if d.is_nan() { f64::NAN } else { d.min(360.0 - d) };
+            acc.h.upd(d, p);
+        }
+        if c == 0.0 {
+            acc.sext[6] += 1;
+        } else {
+            acc.sext[((want[0] / 60.0) as usize).min(5)] += 1;
+        }
+        let b = back.data()[i];
+        for cc in 0..3 {
+            acc.rt.upd((b[cc] as f64 - p[cc] as f64).abs(), p);
+        }
+    }
+    Ok(())
+}
+
+pub fn c17(ctx: &Ctx) {
+    let total: u64 = ctx.arg_u64("pixels").unwrap_or(ctx.pick(1 << 24, 1 << 30));
+    let chunk: u64 = 65_521;
+    let distinct = Distinct::new(ctx.pick(27, 32));
+    let glob = Mutex::new(Acc { h: Worst::new(), s: Worst::new(), l: Worst::new(), rt: Worst::new(), range_bad: [0; 4], first_range_bad: None, sext: [0; 7] });
+    let strata: Vec<AtomicU64> = (0..8).map(|_| AtomicU64::new(0)).collect();
+    ev::par_ranges("C17", total, chunk, |_w, a, b| {
+        let mut rng = Rng::new(ctx.seed, 0x0C17_0000 + a / chunk);
+        let px: Vec<[f32; 3]> = (a..b)
+            .map(|i| {
+                let k = i % 8;
+                gen(&mut rng, k)
+            })
+            .collect();
+        for (j, p) in px.iter().enumerate() {
+            distinct.insert(hash_px(*p));
+            let _ = j;
+        }
+        for k in 0..8u64 {
+            let cnt = (a..b).filter(|i| i % 8 == k).count() as u64;
+            strata[k as usize].fetch_add(cnt, Relaxed);
+        }
+        let mut acc = Acc { h: Worst::new(), s: Worst::new(), l: Worst::new(), rt: Worst::new(), range_bad: [0; 4], first_range_bad: None, sext: [0; 7] };
+        if let Err(e) = check(&px, &mut acc) {
+            ev::violation("C17|dims", e, J::Null);
+            return;
+        }
+        let mut g = glob.lock().unwrap();
+        g.h.merge(&acc.h);
+        g.s.merge(&acc.s);
+        g.l.merge(&acc.l);
+        g.rt.merge(&acc.rt);
+        for i in 0..4 {
+            g.range_bad[i] += acc.range_bad[i];
+        }
+        for i in 0..7 {
+            g.sext[i] += acc.sext[i];
+        }
+        if g.first_range_bad.is_none() {
+            g.first_range_bad = acc.first_range_bad;
+        }
+    });
+    let g = glob.lock().unwrap();
+    let hslof = |p: [f32; 3]| Hsl::from(LinearRgb::new(vec![p], 1, 1).unwrap()).data()[0];
+    for (name, w, tol, unit) in [("hue", &g.h, 0.01, "deg"), ("saturation", &g.s, 1e-4, ""), ("lightness", &g.l, 1e-6, ""), ("roundtrip", &g.rt, 1e-5, "")] {
+        ev::observe(&format!("worst_{name}_err"), w.err);
+        if let Some(p) = w.at {
+            let j = J::obj().set("kind", "hsl").set("check", name).set("pixel", px_json(p)).set("hsl", hslof(p)).set("model", lrgb_to_hsl(px64(p))).set("err", w.err);
+            ev::observe(&format!("worst_{name}_at"), j.clone());
+            if name == "hue" {
+                ev::sample(j.clone());
+            }
+            if !(w.err <= tol) {
+                ev::violation(format!("C17|{name}"), format!("pixel {p:?}: {name} error {:.3e}{unit} > {tol:e}; HSL {:?}, model {:?}", w.err, hslof(p), lrgb_to_hsl(px64(p))), j);
+            }
+        }
+    }
+    let names = ["hue<0-or-NaN", "hue>=360", "saturation-out-of-[0,1]", "lightness-out-of-[0,1]"];
+    let mut rb = J::obj();
+    for i in 0..4 {
+        rb.put(names[i], g.range_bad[i]);
+    }
+    ev::observe("range_violations_by_kind", rb);
+    if let Some((p, h)) = g.first_range_bad {
+        let which: Vec<&str> = (0..4).filter(|i| g.range_bad[*i] > 0).map(|i| names[i]).collect();
+        ev::violation(
+            format!("C17|range|{}", which.join("+")),
+            format!("{} pixels leave the documented HSL ranges; first: {p:?} -> {h:?}", g.range_bad.iter().sum::<u64>()),
+            J::obj().set("kind", "hsl").set("check", "range").set("pixel", px_json(p)).set("hsl", h),
+        );
+    }
+    ev::observe("pixels_per_hue_sextant_0..5_and_achromatic", g.sext.to_vec());
+    let mut sj = J::obj();
+    for (i, s) in STRATA.iter().enumerate() {
+        sj.put(s, strata[i].load(Relaxed));
+    }
+    ev::observe("pixels_per_stratum", sj);
+
+    // HSL -> RGB anchors: L=0 is black, L=1 is white for every hue/saturation
+    let mut rng = Rng::new(ctx.seed, 0x0C17_FFFF);
+    let mut hsl_in: Vec<[f32; 3]> = Vec::new();
+    let hues = [0.0f32, 60.0, 120.0, 180.0, 240.0, 300.0, 359.99997, 59.999996, 60.000004, 1e-30, 179.99998, 300.00003];
+    for h in hues {
+        for s in [0.0f32, 1.0, 0.5, 1e-7, 0.99999994] {
+            for l in [0.0f32, 1.0] {
+                hsl_in.push([h, s, l]);
+            }
+        }
+    }
+    let nrand: usize = ctx.pick(1 << 18, 1 << 22);
+    for _ in 0..nrand {
+        hsl_in.push([f32::from_bits(rng.below(0x43B4_0000) as u32), rng.unit() as f32, if rng.coin() { 0.0 } else { 1.0 }]);
+        hsl_in.push([(rng.unit() * 360.0) as f32 * 0.99999, rng.unit() as f32, if rng.coin() { 0.0 } else { 1.0 }]);
+    }
+    hsl_in.retain(|p| p[0] >= 0.0 && p[0] < 360.0);
+    let n = hsl_in.len();
+    let out = LinearRgb::from(Hsl::new(hsl_in.clone(), n, 1).unwrap());
+    let mut wa = Worst::<[f32; 3]>::new();
+    for i in 0..n {
+        let want = hsl_in[i][2] as f64;
+        for c in 0..3 {
+            wa.upd((out.data()[i][c] as f64 - want).abs(), hsl_in[i]);
+        }
+    }
+    ev::observe("hsl_anchor_triples", n);
+    ev::observe("hsl_anchor_worst_err", wa.err);
+    if !(wa.err <= 1e-6) {
+        if let Some(p) = wa.at {
+            ev::violation("C17|anchor", format!("HSL {p:?} decodes {:.3e} away from {}", wa.err, if p[2] == 0.0 { "black" } else { "white" }), J::obj().set("kind", "hsl-anchor").set("hsl", px_json(p)));
+        }
+    }
+    ev::add_evals(total + n as u64);
+    ev::add_nontrivial(distinct.count());
+    ev::exhaustive(false);
+    ev::rule(
+        "linear pixels of [0,1]^3 from 8 strata (uniform; forced channel order = each hue sextant; greys/near-greys with spread 1e-9..1e-3; a channel pinned to 0/1; two channels tiny 1e-30..1; cube corners; \
+         sextant boundaries (two channels equal) with one channel moved by -8..8 ulp; uniform over bit patterns), images of 65,521 pixels; Hsl::from vs f64 hexcone model with mod-6 hue, strict range test, \
+         and LinearRgb::from(Hsl::from(p)) vs p; plus HSL triples with L in {0,1} for boundary and random hues. distinct = hash bitset over pixel bits; non-trivial = every pixel (range is checked for all)",
+    );
+}
+
+pub fn replay(case: &J) -> bool {
+    let kind = case.get("kind").and_then(J::as_str).unwrap_or("");
+    if kind == "hsl" {
+        let Some(p) = case.get("pixel").and_then(parse_bits3) else { return false };
+        let mut acc = Acc { h: Worst::new(), s: Worst::new(), l: Worst::new(), rt: Worst::new(), range_bad: [0; 4], first_range_bad: None, sext: [0; 7] };
+        if check(&[p], &mut acc).is_err() {
+            return false;
+        }
+        ev::add_evals(1);
+        let hsl = Hsl::from(LinearRgb::new(vec![p], 1, 1).unwrap()).data()[0];
+        ev::observe("replay", J::obj().set("hsl", hsl).set("model", lrgb_to_hsl(px64(p))).set("hue_err", acc.h.err).set("sat_err", acc.s.err).set("light_err", acc.l.err).set("roundtrip_err", acc.rt.err).set("range_bad", acc.range_bad.to_vec()));
+        let bad = acc.range_bad.iter().sum::<u64>() > 0 || !(acc.l.err <= 1e-6) || (acc.s.at.is_some() && !(acc.s.err <= 1e-4)) || (acc.h.at.is_some() && !(acc.h.err <= 0.01)) || !(acc.rt.err <= 1e-5);
+        if bad {
+            ev::violation("C17|replay", format!("HSL {hsl:?}"), case.clone());
+        }
+        return true;
+    }
+    if kind == "hsl-anchor" {
+        let Some(p) = case.get("hsl").and_then(parse_bits3) else { return false };
+        let out = LinearRgb::from(Hsl::new(vec![p], 1, 1).unwrap()).data()[0];
+        ev::add_evals(1);
+        ev::observe("replay", J::obj().set("rgb", out));
+        if !(0..3).all(|c| (out[c] as f64 - p[2] as f64).abs() <= 1e-6) {
+            ev::violation("C17|replay", format!("{out:?}"), case.clone());
+        }
+        return true;
+    }
+    false
+}
